@@ -32,7 +32,10 @@ RULE = ("matmul: all pairs of shapes (batch_a ++ [n,k]) x (batch_b ++ [k',m]) wi
         "with a sampled (n,k,k',m); thorough: dim up to 4, extents up to 4), plus every 1-d promotion pattern, through view::matmul, "
         "array::matmul and view::matmulv2; dot / inner / outer / vecdot / kron on pairs of shapes dim 1..3(4) extents 1..3; tensordot "
         "with every integer axes 0..min dim and sampled explicit axis pairings (negative axes included) on shapes built to be "
-        "contractible; diagonal / trace for every axis pair (both signs) and offsets -3..4; a sample through fixed-shape "
+        "contractible; diagonal / trace for every axis pair (both signs) and offsets -3..4; argument FORMS: trace / diagonal "
+        "with all, two or one of (offset, axis1, axis2) OMITTED and tensordot with axes omitted, on rank 2..4 inputs, view "
+        "and eager, against NumPy's documented defaults, and compile-time-constant (meta::ct) offsets / axes / tensordot "
+        "axes next to the run-time forms; a sample through fixed-shape "
         "(nested std::array) operands. Data are distinct integers (iota from a random start, alternating sign) so any permuted or "
         "missing term changes the value. non-trivial = some operand of dim >= 2 with an extent > 1; distinct = distinct case lines")
 THEOREM_STATUS = {"proved": ["C16_matmul_shape_spec", "C16_matmul_elem_spec", "C16_matmul_v2_spec", "C16_dot_spec", "C16_inner_spec", "C16_vecdot_spec",
@@ -45,7 +48,8 @@ ASSUMPTIONS = ["extents are positive", "the scalar addition is associative with 
 
 def drivers(tier):
     return {"c16": [("c16.cpp", "ndebug", ()), ("c16.cpp", "asan", ("-DVD_LIGHT",))],
-            "kron": [("c16_kron.cpp", "ndebug", ())]}
+            "kron": [("c16_kron.cpp", "ndebug", ())],
+            "forms": [("c16_forms.cpp", "ndebug", ()), ("c16_forms.cpp", "asan", ("-DVD_LIGHT",))]}
 
 
 def size(shape):
@@ -187,6 +191,48 @@ def gen_cases(rng, tier):
         for off in (0, 1):
             add("fixed", "trace S:fix %s I:%d I:0 I:1" % (A(rng, a), off))
             add("fixed", "diagonal S:fix %s I:%d I:1 I:0" % (A(rng, a), off))
+    # ---------------- argument FORMS: omitted arguments (API defaults) and compile-time-constant arguments
+    def addf(line): add("forms", line, "forms")
+    fshapes = shapes_upto(2, 3, 2) + rng.sample(shapes_upto(3, 3, 3), 14 if quick else 27) + rng.sample(shp4, 8 if quick else 40)
+    CT_AXES = [(0, 1), (1, 0), (1, 2), (0, 2), (-2, -1), (-1, 0)]
+    for s_ in fshapes:
+        d = len(s_)
+        for op in ("trace", "diagonal"):
+            for kd in ("view", "eval"):
+                addf("%s_d S:%s %s" % (op, kd, A(rng, s_)))
+            for off in range(-2, 3):
+                addf("%s_o S:%s %s I:%d" % (op, rng.choice(["view", "eval"]), A(rng, s_), off))
+            for off in (-1, 0, 1):
+                addf("%s_oc S:%s %s I:%d" % (op, rng.choice(["view", "eval"]), A(rng, s_), off))
+            for ax1 in range(-d, d):
+                if ax1 % d == 1: continue                       # axis2 defaults to 1: NumPy rejects axis1 == axis2
+                addf("%s_oa S:%s %s I:%d I:%d" % (op, rng.choice(["view", "eval"]), A(rng, s_), rng.randint(-1, 1), ax1))
+            for (p1, p2) in CT_AXES:
+                if max(p1, p2) >= d or (p1 % d) == (p2 % d): continue
+                off = rng.choice([-1, 0, 1])
+                addf("%s_ct S:%s %s I:%d I:%d I:%d" % (op, rng.choice(["view", "eval"]), A(rng, s_), off, p1, p2))
+    for s_ in [(3, 3), (2, 3, 2), (3, 3, 3)]:
+        for op in ("trace", "diagonal"):
+            addf("%s_d S:fix %s" % (op, A(rng, s_)))
+            for off in (-1, 0, 1): addf("%s_o S:fix %s I:%d" % (op, A(rng, s_), off))
+    for _ in range(60 if quick else 600):
+        a = rng.choice(shapes_upto(4, 3, 2)); b = rng.choice(shapes_upto(4, 3, 2))
+        bb = a[-2:] + b[2:]
+        if rng.random() < 0.05: bb = b
+        addf("tdot_d S:%s %s %s" % (rng.choice(["view", "eval"]), A(rng, a), A(rng, bb)))
+        nn = rng.randint(1, min(3, len(a), len(b)))
+        addf("tdot_ct S:%s %s %s I:%d" % (rng.choice(["view", "eval"]), A(rng, a), A(rng, a[len(a) - nn:] + b[nn:]), nn))
+    for (a, b) in [((2, 3), (2, 3)), ((2, 2, 3), (2, 3, 2))]:
+        for _ in range(2): addf("tdot_d S:fix %s %s" % (A(rng, a), A(rng, b)))
+    CT_PAIRS = [((0,), (0,)), ((1,), (0,)), ((-1,), (0,)), ((0, 1), (1, 0)), ((1, 2), (0, 1)), ((2, 0), (0, -1))]
+    for _ in range(60 if quick else 600):
+        axa, axb = rng.choice(CT_PAIRS)
+        da = rng.randint(max([x + 1 if x >= 0 else -x for x in axa] + [1]), 4)
+        db = rng.randint(max([x + 1 if x >= 0 else -x for x in axb] + [1]), 3)
+        a = tuple(rng.randint(1, 3) for _ in range(da)); bl = [rng.randint(1, 3) for _ in range(db)]
+        if len(set(x % db for x in axb)) < len(axb): continue
+        for p_, q_ in zip(axa, axb): bl[q_] = a[p_]
+        addf("tdotx_ct S:%s %s %s %s %s" % (rng.choice(["view", "eval"]), A(rng, a), A(rng, tuple(bl)), L(axa), L(axb)))
     # ---------------- kron (own translation unit)
     kshp = shapes_upto(3, 3)
     for a in shapes_upto(2, 2):
@@ -229,9 +275,12 @@ def classify(line, impl, spec, model):
     sh = _shapes(line)
     if op == "matmul" and kind in ("view", "eval") and (len(sh[0]) == 1 or len(sh[1]) == 1) and impl.startswith("trap"):
         return "matmul_1d_operand"
-    if op == "trace":
+    if op.startswith("trace"):
         s = sh[0]; d = len(s)
-        off, a1, a2 = _ints(t[3]), _ints(t[4]) % d, _ints(t[5]) % d
+        vals = [_ints(x) for x in t[3:]] + [None, None, None]
+        off = vals[0] if vals[0] is not None else 0           # omitted arguments: NumPy's defaults (0, 0, 1)
+        a1 = (vals[1] if vals[1] is not None else 0) % d
+        a2 = (vals[2] if vals[2] is not None else 1) % d
         n1, n2 = s[a1], s[a2]
         n = max(0, min(n1, n2 - off) if off >= 0 else min(n1 + off, n2))     # NumPy's diagonal length
         if n == 0 and a1 != a2 and impl.startswith("trap"):
